@@ -175,6 +175,8 @@ class Report:
                     sh = shrink_fn(b, w)
                     if sh is not None:
                         w, detail = sh
+                    else:
+                        detail = detail + " [witness not minimised: not reproducible in isolation or no shrinker - if the replay passes, the violation depends on what ran before in the same process]"
                 except Exception:
                     sys.stderr.write("shrinker failed (witness kept unshrunk):\n" + traceback.format_exc())
             path = self._write_replay(b, w, detail, e["kind"])
